@@ -348,11 +348,21 @@ class DataFrameSchemaBackend(PolarsSchemaBackend):
             return check_obj
 
         filter_out_columns = []
+        # report the first offender of each constraint (strict, ordered) so
+        # that lazy validation collects both kinds of error
+        strict_error = None
+        ordered_error = None
+        errors_in_order = []
+
         sorted_column_names = iter(column_info.sorted_column_names)
         for column in column_info.destuttered_column_names:
             is_schema_col = column in column_info.expanded_column_names
-            if schema.strict is True and not is_schema_col:
-                raise SchemaError(
+            if (
+                schema.strict is True
+                and not is_schema_col
+                and strict_error is None
+            ):
+                strict_error = SchemaError(
                     schema=schema,
                     data=check_obj,
                     message=(
@@ -363,6 +373,7 @@ class DataFrameSchemaBackend(PolarsSchemaBackend):
                     check="column_in_schema",
                     reason_code=SchemaErrorReason.COLUMN_NOT_IN_SCHEMA,
                 )
+                errors_in_order.append(strict_error)
             if schema.strict == "filter" and not is_schema_col:
                 filter_out_columns.append(column)
             if schema.ordered and is_schema_col:
@@ -370,8 +381,8 @@ class DataFrameSchemaBackend(PolarsSchemaBackend):
                     next_ordered_col = next(sorted_column_names)
                 except StopIteration:
                     pass
-                if next_ordered_col != column:
-                    raise SchemaError(
+                if next_ordered_col != column and ordered_error is None:
+                    ordered_error = SchemaError(
                         schema=schema,
                         data=check_obj,
                         message=f"column '{column}' out-of-order",
@@ -379,6 +390,16 @@ class DataFrameSchemaBackend(PolarsSchemaBackend):
                         check="column_ordered",
                         reason_code=SchemaErrorReason.COLUMN_NOT_ORDERED,
                     )
+                    errors_in_order.append(ordered_error)
+
+        if len(errors_in_order) == 1:
+            raise errors_in_order[0]
+        if errors_in_order:
+            raise SchemaErrors(
+                schema=schema,
+                schema_errors=errors_in_order,
+                data=check_obj,
+            )
 
         if schema.strict == "filter":
             check_obj = check_obj.drop(filter_out_columns)
